@@ -192,3 +192,38 @@ def check(ctx, prop: str, rule: str, floor: int = 1):
                   "; ".join(probs[:3]), fi.where)
     if n < floor:
         ctx.bad(rule, "contract:coverage", f"only {n} functions of the API census belong to {prop}", "sa/contract.json")
+
+
+# overrides of analysed methods that were read and need no rule of their own (reason each)
+OVERRIDE_OK = {
+    ("BinningBase.as_fixed_width", "FixedWidthBinning.as_fixed_width"): "returns itself (or its copy)",
+    ("BinningBase.is_regular", "FixedWidthBinning.is_regular"): "a fixed-width grid is regular by construction",
+    ("BinningBase.is_regular", "ExponentialBinning.is_regular"): "geometric bins are never regular",
+    ("HistogramBase.__init__", "Histogram2D.__init__"): "fixes dimension=2 and delegates",
+    ("HistogramND.__init__", "Histogram2D.__init__"): "fixes dimension=2 and delegates",
+}
+
+
+def check_overrides(ctx, rule: str):
+    """The rules of a property decide specific method implementations. A subclass that replaces one of them with code no
+    rule of this property looked at is outside what was decided: it is reported, to be read and either given rules or
+    listed in OVERRIDE_OK with a reason."""
+    m = ctx.model
+    byq = {}
+    for fi in m.all_funcs():
+        byq.setdefault(fi.qualname, fi)
+    seen = set(ctx.analysed_functions)
+    known = set((load() or {}).get("analysed", []))
+    for q in sorted(seen):
+        fi = byq.get(q)
+        if fi is None or fi.cls is None:
+            continue
+        for sub in m.subclasses(fi.cls):
+            if fi.name in sub.methods or fi.name in sub.getters:
+                sq = f"{sub.name}.{fi.name}"
+                if sq in seen or sq in known or (q, sq) in OVERRIDE_OK:
+                    continue
+                over = sub.methods.get(fi.name) or sub.getters.get(fi.name)
+                ctx.bad(rule, f"override:{sq}", f"{sq} replaces {q}, which the rules of this property analyse, with an implementation "
+                        "none of them covers (a second implementation must satisfy the same clauses: read it, then add rules or a reasoned exception)",
+                        over.where if over is not None else sub.where)
